@@ -203,7 +203,7 @@ pub fn gen_modules(p: &mut Prng, arch: Arch, n: usize, pres_choice: Option<Pres>
             enc: *p.pick(&[PtrEnc::Abs8, PtrEnc::PcRel4, PtrEnc::PcRel8, PtrEnc::TextRel4]),
             hdr_abs: p.chance(1, 3),
             dbg_version: *p.pick(&[1u8, 3, 4]),
-            n_cies: 1 + p.below(3) as u8,
+            n_cies: 1 + p.below(5) as u8,
         });
         cur = end;
         if !p.chance(1, 3) {
